@@ -3329,6 +3329,10 @@ class ISLaSolver:
                             existential_formula,
                         )
                         break
+                    except TimeoutError:
+                        # The probe could not decide within its own time budget:
+                        # keep the state.
+                        pass
                     finally:
                         self.start_time = old_start_time
                         self.timeout_seconds = old_timeout_seconds
